@@ -228,3 +228,44 @@ def _domain_sel_option_mapping(n):
 
 
 DOMAIN = {F + 'SupSelChoiceOptionMapping.resolve': _domain_sel_option_mapping}
+
+
+def _domain_existence_mapping(n):
+    """Real source graphs (a conditional part below an option), existence mappings over plain, design-variable and
+    metric nodes in random priority order, the `None` entry at a random position."""
+    import os
+    import random
+    from pyvc.replay import segment_callable
+    from adsg_core.graph.adsg_basic import BasicDSG
+    from adsg_core.graph.adsg_nodes import NamedNode, DSGNode, SelectionChoiceNode, DesignVariableNode, MetricNode
+    from adsg_core.graph.sup.dsg import SupExistenceMapping
+    key = F + 'SupExistenceMapping.resolve'
+    seg = segment_callable(key, dict(CONTRACTS[key], stop_before='return sup_dsg.get_for_apply_selection_choice'),
+                           os.environ.get('VERIF_REPO', '/repo'))
+    rng = random.Random(2121 + int(os.environ.get('VERIF_SEED', '0') or 0))
+    for _ in range(n):
+        S, A, B, P = NamedNode('S'), NamedNode('A'), NamedNode('B'), NamedNode('P')
+        dv = DesignVariableNode('d', bounds=(0., 1.))
+        dv2 = DesignVariableNode('d', bounds=(0., 2.))       # same displayed name, another context string
+        met = MetricNode('m', direction=-1)
+        src = BasicDSG()
+        src.add_edges([(S, P), (A, dv), (B, met), (P, dv2)] if rng.random() < 0.5 else [(S, P), (A, dv), (A, met)])
+        c0 = src.add_selection_choice('C0', S, [A, B])
+        src = src.set_start_nodes({S})
+        if rng.random() < 0.8:
+            src = src.get_for_apply_selection_choice(c0, rng.choice([A, B]))
+        pool = [A, B, P, dv, dv2, met, NamedNode('absent')]
+        rng.shuffle(pool)
+        keys = pool[:rng.randint(0, 4)]
+        items = [(k, NamedNode(f'T{i}')) for i, k in enumerate(keys)]
+        items.insert(rng.randint(0, len(items)), (None, NamedNode('Tnone')))
+        real = SupExistenceMapping(_ItemsDict(items))
+        sup_choice = SelectionChoiceNode('SC')
+        env = {'self': real, 'src_dsg': src, 'sup_dsg': None, 'sup_choice_node': sup_choice, 'DSGNode': DSGNode,
+               'SelectionChoiceNode': SelectionChoiceNode, 'ctx': (lambda nd: nd.str_context())}
+        yield (env, (lambda real=real, src=src, sup_choice=sup_choice: seg(self=real, sup_dsg=None, sup_choice_node=sup_choice, src_dsg=src)),
+               {'Ref': list(src.graph.nodes) + [k for k in pool if k not in src.graph.nodes]},
+               f'SupExistenceMapping({[(str(a), str(b)) for a, b in items]}).resolve on a source graph with nodes {sorted(str(x) for x in src.graph.nodes)}')
+
+
+DOMAIN[F + 'SupExistenceMapping.resolve'] = _domain_existence_mapping
